@@ -1,5 +1,6 @@
 import SFV.Proofs.RegisterFock
 import SFV.Proofs.RegisterBos
+import SFV.Proofs.RegisterModes
 
 /-!
 # C08 — register and simulator agree on which modes exist, for every history
@@ -172,6 +173,14 @@ theorem agree_after_run (o : BackendOps D B) (abs : B → Rows D) (Inv : B → P
   have hb := sim_boundary R h2 h3 h4
   exact ⟨t, h1, sim_register h2, hb.2.1, hb.2.2, Rows.state_labels _ 0⟩
 
+/-- **`All(gate) | reg`** is: test the whole selection (so a bad item rejects everything before anything is appended),
+then one single-mode `gate | r` per item — each of which is an event of the history alphabet covered by `simulation_step` -/
+theorem all_gate_is_uses (p : Prog) (reg : List Ref) (k : Int) :
+    p.allOp reg k = match p.testRegrefs reg with
+      | .error e => .error e
+      | .ok _ => reg.foldlM (fun q r => q.useOp [r] k []) p :=
+  allOp_eq p reg k
+
 /-- the Fock back end (ModeMap + tensor axes) and the Gaussian back end are such back ends -/
 theorem fock_refines : Refines (fockOps D) (Fock.abs (D := D)) (FockInv (D := D)) := fockRefines
 theorem gaussian_refines : Refines (gaussOps D) (PS.abs (D := D)) (PSInv (D := D)) := gaussRefines
@@ -187,6 +196,17 @@ theorem state_exact_fock (s : Fock D) (hs : FockInv s) :
 theorem agree_fock_from (cs : List Cmd) (s : Fock D) (hs : FockInv s) (r' : Rows D) (h : Rows.run cs s.abs = some r') :
     ∃ s' : Fock D, Fock.runCircuit cs s = .ok s' ∧ FockInv s' ∧ s'.abs = r' :=
   Fock.runCircuit_refines cs s hs r' h
+
+/-- **explicit `state(modes=[…])`** on the Fock and on the (repaired) Gaussian back end: the result is the list of the
+requested positions of the full state, in the requested order — so every returned mode is a live mode, labelled with its
+own index and carrying its own data -/
+theorem state_modes_exact_fock (s : Fock D) (hs : FockInv s) (modes : List Nat) (out : List (Nat × D))
+    (h : s.stateModes modes = .ok out) : getAll (Rows.state 0 s.abs) modes = .ok out :=
+  Fock.stateModes_exact s hs modes out h
+
+theorem state_modes_exact_gaussian (s : PS D) (hs : PSInv s) (modes : List Nat) (out : List (Nat × D))
+    (h : s.stateModesG modes = .ok out) : getAll (Rows.state 0 s.abs) modes = .ok out :=
+  PS.stateModesG_exact s hs modes out h
 
 /-- dead or unknown indices are rejected by the Fock back end (`_remap_modes`) -/
 theorem reject_dead_gate_fock (s : Fock D) (hs : FockInv s) (k : Int) (ms : List Nat) (m : Nat) (hm : m ∈ ms)
@@ -315,5 +335,18 @@ example : (match Sys.init (bosOps Int) 1 with
       | .error _ => ([], [], .ok [])
     | .error _ => ([], [], .ok []))
     = ([1, 2], [1, 2], .ok [(1, 0), (2, 3)]) := by decide +kernel
+
+/-- `state_modes_exact_*`: after `Del q[1]` of 3, positions `[1, 0]` are the modes `q[2], q[0]` with their own data -/
+example : ∃ s : PS Int, PS.runCircuit [⟨.gate 1, [0]⟩, ⟨.gate 3, [2]⟩, ⟨.delete, [1]⟩] (PS.begin 3) = .ok s ∧
+    s.stateModesG [1, 0] = .ok [(2, 3), (0, 1)] ∧ Rows.state 0 s.abs = [(0, 1), (2, 3)] := ⟨_, rfl, by decide, by decide⟩
+
+example : ∃ s : Fock Int, Fock.runCircuit [⟨.gate 1, [0]⟩, ⟨.gate 3, [2]⟩, ⟨.delete, [1]⟩] (Fock.begin 3) = .ok s ∧
+    s.stateModes [1, 0] = .ok [(2, 3), (0, 1)] ∧ Rows.state 0 s.abs = [(0, 1), (2, 3)] := ⟨_, rfl, by decide, by decide⟩
+
+/-- `all_gate_is_uses`: accepted on two modes (two commands appended), rejected as a whole when one item is deleted -/
+example : ∃ p : Prog, (Prog.fresh 3 >>= fun p => p.delOp [.own 1]) = .ok p ∧
+    (match p.allOp [.own 2, .int 0] 1 with | .ok q => q.circuit.length | .error _ => 0) = p.circuit.length + 2 ∧
+    (match p.allOp [.own 2, .int 1] 1 with | .ok _ => none | .error e => some e) = some .regRef :=
+  ⟨_, rfl, by decide, by decide⟩
 
 end SFV.C08
